@@ -78,8 +78,8 @@ pub fn default_runs(prop: &str, tier: &str) -> (u64, u64) {
     match (prop, tier) {
         ("C03", "quick") => (40000, 3000),
         ("C03", _) => (2000000, 150000),
-        ("C10", "quick") => (6000, 600),
-        ("C10", _) => (200000, 20000),
+        ("C10", "quick") => (10000, 1500),
+        ("C10", _) => (500000, 60000),
         ("C14", "quick") => (30000, 3000),
         ("C14", _) => (1000000, 60000),
         _ => (100, 10),
